@@ -9,17 +9,24 @@ constructor live in pyvc/th_tables2.py.  Functions under contract (real source, 
                          entry i at position count_true(mask, i) - with the induction lemmas about count_true: exactly the rows whose entry is true, in order
                          (this is the MASK contract of C06);  slice: every column cut by the same slice, row j of the result is one table row in every column;
                          column name: the stored column / KeyError;  tuple of 1..3 names: the list of the rows' key tuples (the projection _listby takes as
-                         callee contract);  list of names: exactly these columns, as they were (through dictattr.__getitem__ and the keyword constructor)
+                         callee contract);  list of names: exactly these columns, as they were (through dictattr.__getitem__ and the keyword constructor);
+                         list of k >= 1 integers: `list(zip(*self.values()))` is the list of the row tuples (axiom: transposition of the columns), indexed the
+                         Python way, then the constructor from rows + headers by its contract: all columns, k rows, row j is row item[j] of the receiver
+                         (negative indices from the end), IndexError iff an index is outside -len .. len-1, the receiver is left as it was
+                         (the row selection C02's xor ends with)
   dictable.__init__      with _data_columns_as_dict, _value, as_list inlined: from a dict of equally long lists, from keyword columns, from ([], column names),
-                         from a list of records (dict_concat by contract), from nothing
+                         from a list of records (dict_concat by contract), from nothing; from a list of n row tuples of length m and m distinct column names
+                         (a list of names, or the keys() of a dict; zipper by contract): exactly the named columns, column p lists row[i][p], i = 0..n-1,
+                         for n == 0 the named columns, all empty (pyvc/th_tables3.py)
   dict_concat            whole body: no record, one record, records with one key set (sorted items / transpose / zip), several key sets (union, d.get)
   dictattr.__delitem__, dictable.__delattr__, dictattr.__sub__   the named column goes, the others are untouched, the table stays rectangular
   dictable.__add__ / concat for two tables   union of the columns, rows of the left operand then of the right one, in order, None for a column an operand lacks
   dictable.update        loop over __setitem__ with the invariant "keys passed are stored, the rest is as before" (values that fit)
 Callee contracts: lens, zipper, as_list on lists (proved in C19); __setitem__ inside update, __iter__ / the constructor / dict_concat / dictable.get inside the
-selection forms and concat (proved here, section named in each use text).
-Still bounded only (rac/C01.py): the list-of-integers form (constructor from rows + headers), scalar / length-1 broadcast on construction, DataFrame / path inputs,
-relabel, do, derived columns, concat of more than two tables, and the induction over whole operation histories (each proved operation keeps wf and agrees with the
+selection forms and concat (proved here, section named in each use text).  The sections constructor.rows and __getitem__.ints are grounded lazily: an
+obligation z3 discharges as it stands is kept, one it does not (a failing one, on a changed tree) is grounded so that it comes back `sat` with a model.
+Outside the rows + headers contract (its preconditions): rows of unequal length, a name count other than the row length, repeated names.
+Still bounded only (rac/C01.py): scalar / length-1 broadcast on construction, DataFrame / path inputs, relabel, do, derived columns, concat of more than two tables, and the induction over whole operation histories (each proved operation keeps wf and agrees with the
 list-of-records model clause by clause; chaining them is an argument, not a solver step).
 """
 import ast
@@ -519,7 +526,7 @@ def constructor_obligations(ctx, m):
         ctx.absorb(ex)
         ctx.record_function(m, 'dictable.__init__', fdef, ex.stmts_executed, excluded=['keyword columns, scalar / length-1 broadcast on construction: bounded only'])
         ctx.record_function(m, '_data_columns_as_dict', inline['_data_columns_as_dict'][1], ex.stmts_executed,
-                            excluded=['paths, DataFrames, cursors, rows + headers, lists of pairs / of lists: bounded only'])
+                            excluded=['paths, DataFrames, cursors, lists of pairs / of lists: bounded only'])
         nret = 0
         for out in outs:
             hy = ex.facts + out.st.pc
@@ -789,7 +796,7 @@ def build(ctx):
         outs = ex.run_function(st, 'dictable.__getitem__', [t, I(i)], {})
         ctx.absorb(ex)
         ctx.record_function(m, 'dictable.__getitem__', fdef, ex.stmts_executed,
-                            excluded=['slice, list (names / mask / integer list), column name, tuple and callable items: bounded only; this run: item is an int'])
+                            excluded=['callable items: bounded only; this run: item is an int'])
         c = Const('c!row', Key)
         nret = 0
         for out in outs:
